@@ -3,7 +3,7 @@
 seeded/<id>/meta.json (key verif_detection) and in seeded/SUMMARY.md.  Usage: tools/seed_report.py [ids...]"""
 import os, sys, json, subprocess, re, glob, shutil, tempfile
 HERE = os.path.dirname(os.path.dirname(os.path.abspath(__file__)))
-ids = sys.argv[1:] or sorted(os.path.basename(d) for d in glob.glob(os.path.join(HERE, 'seeded', '*')) if os.path.isdir(d))
+ids = [] if sys.argv[1:] == ['--summary-only'] else sys.argv[1:] or sorted(os.path.basename(d) for d in glob.glob(os.path.join(HERE, 'seeded', '*')) if os.path.isdir(d))
 rows = []
 for sid in ids:
     d = os.path.join(HERE, 'seeded', sid)
